@@ -238,4 +238,10 @@ class DictField(Field):
         """
         if not self._use_proxy:
             return value
+        if isinstance(value, dict):
+            # undo the key / value fields' on-disk encoding (the inverse of to_basic) before validating
+            value = {
+                self.key_field.to_python(cfg, key): self.value_field.to_python(cfg, val)  # type: ignore
+                for key, val in value.items()
+            }
         return DictProxy(cfg, self, value)
